@@ -164,3 +164,8 @@ mod tests {
         assert!(res.is_err());
     }
 }
+
+// verification hook (guard: cfg(kani), set only by the Kani compiler): harnesses live in /verif/kani
+#[cfg(kani)]
+#[path = "/verif/kani/aespoly1305.rs"]
+mod verif_kani;
